@@ -310,6 +310,9 @@ class ExtMixin(object):
 
     def x_isinstance(self, args, kwargs, node, env):
         v, c = args
+        if isinstance(v, (Opaque, LookupV)) or (isinstance(v, InstV) and v.label is not None and not isinstance(c, ClassV)):
+            r = self.assume(Cond("isinstance", v, c))
+            return Const(r) if isinstance(r, bool) else r
         if isinstance(v, InstV) and isinstance(c, ClassV):
             return Const(v.ci.is_subclass_of(c.ci))
         if isinstance(c, ExtV) and c.name in ("builtins.float", "builtins.int"):
@@ -413,6 +416,8 @@ class ExtMixin(object):
         base, name = bb.base, bb.name
         if isinstance(base, LoggerV):
             return base if name == "getChild" else NONE
+        if isinstance(base, LookupV):
+            return self.lookup_call(base, name, args, node)
         h = getattr(self, "m_%s_%s" % (type(base).__name__, name), None)
         if h is not None:
             return h(base, args, kwargs, node)
@@ -566,7 +571,11 @@ class ExtMixin(object):
             d.items[Const(f).key()] = (Const(f), v)
         return d
 
-    # LookupV: method call mapped over found element and default
+    # LookupV: method call / attribute mapped over found element and default
+    def lookup_fkey(self, lk):
+        ld = lk.ld
+        return ("lookup", ld.seq.key(), self.subst(ld.keyv, {ld.var: ep.sym("@e")}).key(), lk.query.key())
+
     def lookup_call(self, lk, name, args, node):
         ld = lk.ld
         found = self.call(self.getattr(ld.valv, name, node), args, {}, node)
@@ -574,13 +583,17 @@ class ExtMixin(object):
             dflt = None
         else:
             dflt = self.call(self.getattr(lk.default, name, node), args, {}, node)
-        ph = "@e"
-        fkey = ("lookup", ld.seq.key(), self.subst(ld.keyv, {ld.var: ep.sym(ph)}).key(), lk.query.key())
-        fnum = ep.substitute(self.num(found, node), {ld.var: ep.sym(ph)})
+        fnum = ep.substitute(self.num(found, node), {ld.var: ep.sym("@e")})
         a = [fnum]
         if dflt is not None:
             a.append(self.num(dflt, node))
-        return Num(ep.app(fkey, a))
+        return Num(ep.app(self.lookup_fkey(lk), a))
+
+    def lookup_attr(self, lk, name, node):
+        ld = lk.ld
+        found = self.subst(self.getattr(ld.valv, name, node), {ld.var: ep.sym("@e")})
+        dflt = self.getattr(lk.default, name, node) if lk.default is not None else None
+        return Opaque(("lookupattr", self.lookup_fkey(lk), found.key(), dflt.key() if dflt is not None else None))
 
 
 class BecomeSignal(Exception):
@@ -624,10 +637,40 @@ class SetAccV(V):
         self.concrete = []
 
     def key(self):
-        return ("setacc", tuple((tuple(b), e.key()) for b, e in self.adds), tuple(c.key() for c in self.concrete))
+        out = []
+        for binders, e in self.adds:
+            k = e.key()
+            env = {}
+            bs = []
+            for i, (var, dom) in enumerate(binders):
+                env[var] = ep.sym("@s%d" % i)
+            for i, (var, dom) in enumerate(binders):
+                bs.append(ep._subst_key(dom, env))
+            out.append((tuple(bs), ep._subst_key(k, env)))
+        return ("setacc", tuple(out), tuple(c.key() for c in self.concrete))
+
+    def cardinality(self):
+        """number of distinct elements, for the recognised shape
+        {sorted(a(x), a(y)) | x in S, y in S} = n(n+1)/2 (a injective on S), else None"""
+        if self.concrete or len(self.adds) != 1:
+            return None
+        binders, e = self.adds[0]
+        k = self.key()[1][0]
+        doms, ek = k
+        if len(doms) == 2 and doms[0] == doms[1] and isinstance(ek, tuple) and ek and ek[0] == "sorted" and len(ek[1]) == 2:
+            a, b = ek[1]
+            sa = ep._subst_key(a, {"@s0": ep.sym("@x"), "@s1": ep.sym("@y")})
+            sb = ep._subst_key(b, {"@s0": ep.sym("@y"), "@s1": ep.sym("@x")})
+            from .treecmp import key_eq
+            if key_eq(sa, sb) and doms[0][0] == "seq":
+                n = ep.app(("len", doms[0][1]), [])
+                return n * (n + ep.const(1)) / ep.const(2)
+        return None
 
     def as_sorted(self):
-        return SeqV("opaque", path=("sorted_set", self.key()), elem_class=None)
+        s = SeqV("opaque", path=("sorted_set", self.key()), elem_class=None)
+        s.setacc = self
+        return s
 
     def __repr__(self):
         return "set{%s}" % ", ".join("%r for %s" % (e, b) for b, e in self.adds)
